@@ -349,11 +349,12 @@ def history(g, rid=0, emphasis=None):
     L = []
     a = str(rid)
     L.append('new ' + a)
-    regs = [c for c in ['lower', 'even', 'noa'] if r.random() < 0.8]
+    regs = [c for c in [r.choice(['lower', 'lower', 'lower', 'lower2']), 'even', 'noa'] if r.random() < 0.8]
     for c in regs:
         L.append('cons %s %s' % (a, c))
-    if r.random() < 0.1:
-        L.append('cons %s %s' % (a, r.choice(['lower', 'lower2', 'dupu8', 'even'])))
+    if r.random() < 0.15:
+        for _ in range(r.choice([1, 2, 3])):
+            L.append('cons %s %s' % (a, r.choice(['lower', 'lower2', 'dupu8', 'even', 'lower2', 'dupu8'])))
     vocab = g.vocab()
     pool = g.pool(r.choice([2, 3, 3, 4, 4, 5, 6]), vocab)
     paths = g.paths_for(pool, r.choice([6, 8, 10, 12]))
@@ -366,6 +367,8 @@ def history(g, rid=0, emphasis=None):
     nops = r.choice([3, 4, 5, 6, 7, 8])
     for _ in range(nops):
         k = r.random()
+        if r.random() < 0.04:
+            L.append('cons %s %s' % (a, r.choice(['lower', 'lower2', 'dupu8', 'even', 'noa'])))
         if k < 0.60 or not live:
             it = r.choice(pool)
             L.append('insert %s %s %d' % (a, hx(g.render(it)), data)); data += 1
